@@ -37,7 +37,9 @@ type valOps[TV any] struct {
 
 func pvOpsBytes() valOps[[]byte] {
 	return valOps[[]byte]{
-		mk: func(k, ver int) []byte { return []byte(fmt.Sprintf("key%d.ver%d.%s", k, ver, strings.Repeat("x", 8+k%5))) },
+		mk: func(k, ver int) []byte {
+			return []byte(fmt.Sprintf("key%d.ver%d.%s", k, ver, strings.Repeat("x", 8+k%5)))
+		},
 		mutate: func(v *[]byte) {
 			for i := range *v {
 				(*v)[i] = '!'
@@ -196,9 +198,9 @@ func runPrivacy[TV any](c *progCase, ops valOps[TV]) ([]Violation, *progStats) {
 	defer e.Close()
 	st.S = e.S
 	var vs []Violation
-	ver := map[int]int{}     // model: key -> version
-	dirty := map[string]bool{} // (key, where) pairs already reported
-	cold := true               // no modification happened in this process incarnation yet
+	ver := map[int]int{}         // model: key -> version
+	dirty := map[string]bool{}   // (key, where) pairs already reported
+	cold := true                 // no modification happened in this process incarnation yet
 	leaked := map[int][]string{} // key -> kinds of un-written-back modifications since its last Update
 	onDisk := map[int]bool{}     // a writer transaction committed while the key had such a modification
 	writerCommitted := func() {
@@ -216,7 +218,6 @@ func runPrivacy[TV any](c *progCase, ops valOps[TV]) ([]Violation, *progStats) {
 	kindNote := fmt.Sprintf("[value type %s, value placement %d] ", c.Kind, c.P["vmode"])
 	txo := func(mode string) sop.TransactionOptions { return e.txOptions(mode, 0) }
 	report := func(class, msg string) { vs = append(vs, Violation{Class: class, Msg: msg}) }
-
 
 	setupErr := ""
 	e.runTasks([]string{"setup"}, []func(*sim.Task){func(t *sim.Task) {
